@@ -168,6 +168,21 @@ func genGeom(r *simrt.RNG, typ string, allowEmpty bool, base float64) *gpkgh.G {
 		typ = concreteTypes[r.Intn(len(concreteTypes))]
 	}
 	g := &gpkgh.G{T: typ}
+	if empty && r.Chance(0.3) {
+		// empty although it has members: a collection of an empty point, a multilinestring of
+		// an empty linestring, a multipolygon of a polygon without rings
+		switch typ {
+		case gpkgh.TCollection:
+			g.C = []*gpkgh.G{{T: gpkgh.TPoint, P: [][2]float64{}}}
+			return g
+		case gpkgh.TMultiLineString:
+			g.L = [][][2]float64{{}}
+			return g
+		case gpkgh.TMultiPolygon:
+			g.M = [][][][2]float64{{}}
+			return g
+		}
+	}
 	switch typ {
 	case gpkgh.TCollection:
 		if !empty {
